@@ -1,5 +1,7 @@
 PROP = dict(
-    lean_modules=["DefraModel.Props.C16"],
+    lean_modules=["DefraModel.Props.C16", "DefraModel.Oblig.C16"],
+    extract=dict(obligations=['Defra.Oblig.C16.concurrent_txn_stores_go_through_its_mutex']),
+    oblig_modules=["DefraModel.Oblig.C16"],
     props_modules=["DefraModel.Props.C16"],
     engines=[dict(name="conc", drv="conc", race=True, timeout=5400)],
     rule=("the engine is built with the Go race detector and re-executes itself so that the detector's reports of the whole run are collected (one finding per distinct pair of racing frames); per case: one node with "
@@ -13,7 +15,7 @@ PROP = dict(
         "the race detector reports only races that occur in the executed schedule",
         "merges are awaited through merge-complete events with a deadline; a merge the node gave up on (transaction conflicts beyond its retry budget) is reported under its own tag",
     ],
-    trusted_base=["harness/conc built with -race (self re-execution, GORACE log), harness/node, Driver/Conc.lean"],
+    trusted_base=["tools/extract (which transaction value the concurrent transaction's multistore is built from) and the expectation in DefraModel/Oblig/C16.lean", "harness/conc built with -race (self re-execution, GORACE log), harness/node, Driver/Conc.lean"],
 )
 META = dict(
     text=("Lean theorems about acknowledged histories: for every order of the acknowledged calls the counter reads the sum of the increments that reported success and of the merged ones, calls that reported a conflict or an "
